@@ -52,11 +52,21 @@ def check(run):
                           'token test', 4)
     R.rule('C04.disc', 'Disconnected events in the failure handlers are graceful=False', 3)
     R.rule('C04.masked', 'the stream\'s parser class rejects any frame with the mask bit before delegating', 3)
+    R.rule('C04.utf8', 'invalid UTF-8 fails at the violating frame: the streaming validator is the RFC 3629 automaton, sees '
+                       'every text byte once and keeps its state across frames and reads', 10)
     wire(R)
     table(R)
+    from . import C05 as _C05
+    with R.as_rule('C04.utf8'):
+        _C05.dfa(R)
+        _C05.loop(R)
+        _C05.route(R)
+        _C05.track(R)
     from . import C01
     with R.as_rule('C04.table'):
         C01.conserve(R)
+        from . import C05
+        C05.strict(R)            # invalid UTF-8 in text / close reason: the strict whole-payload decode is the check site
     order(R)
     opcodes(R)
     closecodes(R)
